@@ -213,6 +213,10 @@ def run(ctx, w):
     ctx.floor("T5a", 1, "parameter accessors")
 
     run_t7(ctx, w, tb)
+    # T8: parameter values are delivered as written up to 65535: the digit fold
+    # never drops a digit and cannot overflow the type it computes in (C01.R7)
+    from rules import c01
+    c01.digits(ctx, w)
 
 
 def run_t7(ctx, w, tb):
